@@ -6,7 +6,7 @@ CONSTANTS
   Header = "first"
   Merge = "grid"
   MaxSpecial = 1
-  FullCells = 4
+  FullCells = 3
 INVARIANTS TypeOK RoundTrip HeadingLevelOK
 PROPERTIES PrefixStable Terminates
 CONSTRAINT EmitCase
